@@ -1490,7 +1490,7 @@ Simulation._fields_ = [
                 ("steps_done", c_uint64),
                 ("N", c_uint),
                 ("N_var", c_int),
-                ("N_var_config", c_int),
+                ("N_var_config", c_uint),
                 ("var_config", POINTER(Variation)),
                 ("_var_rescale_warning", c_int),
                 ("N_active", c_int),
